@@ -105,6 +105,8 @@ def campaign_c16(seed, tier):
                 lines.append("TREM %d %d" % (k, g))
             elif x < 0.72:
                 lines.append("TCOMP %d %d" % (k, g))
+            elif x < 0.735 and nkeys > 16:
+                lines += ["TCOMP %d %d" % kk for kk in keys]      # everything recorded so far completes
             elif x < 0.75:
                 lines.append("TCLEAR")
             elif x < 0.87:
@@ -118,6 +120,16 @@ def campaign_c16(seed, tier):
     # full table
     lines = ["NEW"] + ["TADD %d 1 1" % k for k in range(1, 19)] + ["TADD 3 1 9", "TREM 5 1", "TADD 40 1 1", "TADD 41 1 1", "TCOMP 40 1", "TTICK"]
     scs.append(Scenario("c16-full", lines))
+    # full table of COMPLETE sessions: a refused add, a refresh, a removal and a re-add leave the summary flags right
+    for variant in range(4 if tier == "quick" else 40):
+        order = list(range(1, 17))
+        rng.shuffle(order)
+        lines = ["NEW"] + ["TADD %d 1 1" % k for k in order]
+        for k in order[:16 if variant % 2 == 0 else 15]:
+            lines.append("TCOMP %d 1" % k)
+        lines += ["TADD 40 1 1", "TFIND 40 1", "TADD %d 1 7" % order[3], "TADD 41 2 1", "TCOMP %d 1" % order[-1], "TADD 42 1 1",
+                  "TREM %d 1" % order[0], "TADD 43 1 1", "TADD 44 1 1", "TCOMP 43 1", "TADD 45 1 1", "TTICK", "ADV 61000", "TADD 46 1 1", "TTICK", "TADD 47 1 1"]
+        scs.append(Scenario("c16-full-complete-%d" % variant, lines))
     for i in range(8 if tier == "quick" else 100):
         scs.append(sc_schedule("c16-sched-%d" % i, rng.randrange(1 << 30), 80))
     return scs
